@@ -369,15 +369,28 @@ Hypothesis Hout0 : fout_inj vs0.
 
 (* frame *)
 Definition fallowed (l : loc) : Prop := In l (map f_out vs0) \/ In l (map (Reg 0) wgp) \/ In l (map (Reg 1) wvec).
-Definition fwr_ok (i : minst) : Prop := (forall l, In l (inst_writes i) -> fallowed l) /\ wf_inst i = true.
+(* shape of the memory accesses that WRITE: a store goes to the destination slot of one variable, from a register, and replaces exactly the
+   bytes of the destination type (32-bit x86: a byte from ESI / EDI ... is stored 32 bits wide); an exchange has register operands only *)
+Definition acc_ok (i : minst) : Prop :=
+  match i with
+  | IExt (Mem ar off) s e n w wz =>
+      exists v0, In v0 vs0 /\ f_out v0 = Mem ar off /\ e = EZ /\ w = n /\ wz = n /\ is_regl s = true /\
+                 (n = 8 * f_osz v0 \/ (a = FX86 /\ f_osz v0 = 1 /\ n = 32))
+  | IExt (Reg _ _) _ _ _ _ _ => True
+  | IXchg x y _ _ => is_regl x = true /\ is_regl y = true
+  end.
+Definition fwr_ok (i : minst) : Prop := (forall l, In l (inst_writes i) -> fallowed l) /\ wf_inst i = true /\ acc_ok i.
 
 Lemma work_allowed g r v : g = vgrp v -> In r (work_of wgp wvec g) -> fallowed (Reg g r).
 Proof.
   unfold vgrp, work_of. intros E Hr. subst g. destruct (f_int v); cbn in Hr; right; [left | right]; apply in_map; assumption.
 Qed.
 
-Lemma fwr_ok_snoc emit i : Forall fwr_ok emit -> wf_inst i = true -> (forall l, In l (inst_writes i) -> fallowed l) -> Forall fwr_ok (emit ++ [i]).
-Proof. intros H1 Hw H2. apply Forall_app. split; [assumption|]. constructor; [split; [exact H2 | exact Hw] | constructor]. Qed.
+Lemma fwr_ok_snoc emit i : Forall fwr_ok emit -> wf_inst i = true -> acc_ok i -> (forall l, In l (inst_writes i) -> fallowed l) -> Forall fwr_ok (emit ++ [i]).
+Proof. intros H1 Hw Ha H2. apply Forall_app. split; [assumption|]. constructor; [split; [exact H2 | split; [exact Hw | exact Ha]] | constructor]. Qed.
+
+Lemma acc_ok_fconv_reg g r s int csz csg osz osg : acc_ok (fconv a (Reg g r) s int csz csg osz osg).
+Proof. rewrite fconv_eq. destruct (fc_params a (is_regl s) int csz csg osz osg) as [[[e n] w] wz]. exact I. Qed.
 
 (* content c of the current location of v: not yet converted / converted *)
 Definition val_rel (v0 v : fvar) (c : Z) : Prop :=
@@ -515,7 +528,7 @@ Proof.
     as [V [HV [P1 P2]]].
   split; [rewrite fset_length; assumption|]. split; [| split].
   - eapply fcur_inj_set; [eassumption | eassumption |]. cbn [fmoved f_cur]. assumption.
-  - apply fwr_ok_snoc; [assumption | apply fconv_wf; assumption |]. intros l Hl. rewrite fconv_writes in Hl. destruct Hl as [E | []]. subst l.
+  - apply fwr_ok_snoc; [assumption | apply fconv_wf; assumption | apply acc_ok_fconv_reg |]. intros l Hl. rewrite fconv_writes in Hl. destruct Hl as [E | []]. subst l.
     eapply work_allowed; eassumption.
   - intros k u0 u Hu0 Hu. rewrite exec_snoc, HV.
     destruct (Nat.eq_dec k i) as [E | E].
@@ -537,13 +550,22 @@ Proof.
   apply andb_prop in E. destruct E as [E _]. apply andb_prop in E. destruct E as [_ E]. apply Z.eqb_eq in E. lia.
 Qed.
 
+Lemma store_bits_shape int r z : store_bits a int r (8 * z) = 8 * z \/ (a = FX86 /\ z = 1 /\ store_bits a int r (8 * z) = 32).
+Proof.
+  unfold store_bits. destruct a; try (left; reflexivity).
+  destruct (int && (8 * z =? 8) && (4 <=? r)) eqn:E; [| left; reflexivity].
+  right. apply andb_prop in E. destruct E as [E _]. apply andb_prop in E. destruct E as [_ E]. apply Z.eqb_eq in E.
+  split; [reflexivity|]. split; [lia | reflexivity].
+Qed.
+
 Lemma finv_store vars emit i v n :
   finv vars emit -> nth_error vars i = Some v -> is_regl (f_out v) = false ->
   (forall k u, k <> i -> nth_error vars k = Some u -> f_cur u <> f_out v) ->
-  f_osz v <= f_csz v -> 8 * f_osz v <= n ->
+  f_osz v <= f_csz v -> 8 * f_osz v <= n -> is_regl (f_cur v) = true ->
+  (n = 8 * f_osz v \/ (a = FX86 /\ f_osz v = 1 /\ n = 32)) ->
   finv (fset vars i (fmoved v (f_out v) true)) (emit ++ [fstore (f_out v) (f_cur v) n]).
 Proof.
-  intros Hinv Hv Hmem Hfree Hle Hn.
+  intros Hinv Hv Hmem Hfree Hle Hn Hcr Hshape.
   destruct (finv_orig _ _ _ _ Hinv Hv) as [v0 [E0 [Hok Hvr]]].
   pose proof (finv_out_allowed _ _ _ _ Hinv Hv) as Hal.
   destruct Hinv as [Hlen [Hinj [Hfr Hrel]]].
@@ -553,8 +575,10 @@ Proof.
   destruct (fstore_sound (f_out v) (f_cur v) n (exec emit st0) ltac:(lia)) as [V [HV PV]].
   split; [rewrite fset_length; assumption|]. split; [| split].
   - eapply fcur_inj_set; [eassumption | eassumption |]. cbn [fmoved f_cur]. assumption.
-  - apply fwr_ok_snoc; [assumption | |].
+  - apply fwr_ok_snoc; [assumption | | |].
     { unfold fstore. cbn [wf_inst]. rewrite !Z.leb_refl. replace (0 <? n) with true by (symmetry; apply Z.ltb_lt; lia). reflexivity. }
+    { unfold fstore. destruct (f_out v) as [? ? | oa oo] eqn:Eout; [discriminate|]. cbn [acc_ok]. exists v0.
+      split; [eapply nth_error_In; eassumption|]. split; [congruence|]. rewrite <- Rz. repeat split; try reflexivity; assumption. }
     intros l Hl. cbn [fstore inst_writes In] in Hl. destruct Hl as [E | []]. subst l.
     assumption.
   - intros k u0 u Hu0 Hu. rewrite exec_snoc, HV.
@@ -611,10 +635,11 @@ Proof.
   assert (Hgne : Reg g c <> Reg g o) by congruence.
   split; [rewrite !fset_length; assumption|]. split; [| split].
   - eapply fcur_inj_swap; try eassumption; cbn [fupd f_cur]; congruence.
-  - apply fwr_ok_snoc; [assumption | |].
+  - apply fwr_ok_snoc; [assumption | | |].
     { cbn [wf_inst]. fold w. replace (0 <? w) with true by (symmetry; apply Z.ltb_lt; pose proof (sz_ok_range _ Scv); lia).
       replace (w <=? 64) with true by (symmetry; apply Z.leb_le; lia).
       replace (loc_eqb (Reg g o) (Reg g c)) with false; [reflexivity|]. symmetry. apply loc_eqb_false. congruence. }
+    { cbn [acc_ok is_regl]. split; reflexivity. }
     intros l Hl. cbn [inst_writes In] in Hl.
     destruct Hl as [E | [E | []]]; subst l; [rewrite <- Eov; assumption|].
     eapply work_allowed; eassumption.
@@ -852,14 +877,16 @@ Proof.
                     (out_slot_free _ _ _ _ Hinv1 Hu Hm)) as Hst.
       rewrite fset_fset in Hst. cbn [u fmoved f_out f_osz f_osg f_int f_csz f_cur] in Hst.
       rewrite app_assoc. apply P1_set; try assumption; [| reflexivity].
-      apply Hst; [lia | rewrite Hiv; apply store_bits_ge].
+      rewrite Hiv in Hst |- *. apply Hst; [lia | apply store_bits_ge | reflexivity | apply store_bits_shape].
     + cbn [app]. apply P1_set; try assumption; [| reflexivity]. rewrite <- Ec.
       assert (Hle : f_osz v <= f_csz v).
       { unfold fneeds_ext in Hx. destruct (f_int v).
         - cbn [andb] in Hx. apply Z.ltb_ge in Hx. assumption.
         - apply ty_ok_nonint in Hty. lia. }
-      apply finv_store; try assumption; [eapply out_slot_free; eassumption|].
-      etransitivity; [| apply store_bits_ge]. destruct (f_int v); [lia|]. apply ty_ok_nonint in Hty. lia.
+      assert (Esz : (if f_int v then f_osz v else f_csz v) = f_osz v).
+      { destruct (f_int v); [reflexivity|]. apply ty_ok_nonint in Hty. lia. }
+      rewrite Esz.
+      apply finv_store; try assumption; [eapply out_slot_free; eassumption | apply store_bits_ge | rewrite Ec; reflexivity | apply store_bits_shape].
   - (* stack source: through a free GP register *)
     destruct (zmin_list (favail wgp wvec vars 0)) as [sc |] eqn:Hsc; [| exact I].
     apply zmin_list_in in Hsc. apply favail_in in Hsc. destruct Hsc as [S1 S2].
@@ -880,7 +907,7 @@ Proof.
       with (em ++ [fconv a (Reg 0 sc) (Mem ca co) true (f_csz v) (f_csg v) (f_osz v) (f_osg v)] ++
                   [fstore (f_out v) (Reg 0 sc) (store_bits a true sc (8 * (if f_int v then f_osz v else f_csz v)))]).
     rewrite app_assoc. apply P1_set; try assumption; [| reflexivity].
-    apply Hst; [lia | rewrite Hiv; apply store_bits_ge].
+    rewrite Hiv in Hst |- *. apply Hst; [lia | apply store_bits_ge | reflexivity | apply store_bits_shape].
 Qed.
 
 Lemma stk_phase_ok vs1 em1 : finv vs0 [] -> stk_phase a wgp wvec vs0 = Some (vs1, em1) -> finv vs1 em1 /\ stk_done vs1.
@@ -940,7 +967,9 @@ Proof.
   destruct (fconv_sound a (f_out v) (f_cur v) (f_int v) (f_csz v) (f_csg v) (f_osz v) (f_osg v) (exec em st0) Hty)
     as [V [HV [Q1 Q2]]].
   split; [rewrite fset_length; assumption|]. split; [| split].
-  - apply fwr_ok_snoc; [assumption | apply fconv_wf; assumption |]. intros l Hl. rewrite fconv_writes in Hl. destruct Hl as [E | []]. subst l.
+  - apply fwr_ok_snoc; [assumption | apply fconv_wf; assumption | |].
+    { destruct (f_out v) as [og oi | ? ?] eqn:Eout; [apply acc_ok_fconv_reg | discriminate]. }
+    intros l Hl. rewrite fconv_writes in Hl. destruct Hl as [E | []]. subst l.
     left. rewrite Ro. apply in_map. eapply nth_error_In; eassumption.
   - intros i u Hi Hu. destruct (Nat.eq_dec i k) as [E | E].
     + subst i. rewrite nth_fset_eq in Hu by assumption. inversion Hu; subst u. reflexivity.
@@ -1067,7 +1096,7 @@ Proof.
   - intros v Hv. specialize (H4 v Hv). apply Bool.eqb_prop in H4. rewrite H4. reflexivity.
 Qed.
 
-Lemma fwf_finv a wgp wvec vs st0 : fwf_input a wgp wvec vs -> finv wgp wvec vs st0 vs [].
+Lemma fwf_finv a wgp wvec vs st0 : fwf_input a wgp wvec vs -> finv a wgp wvec vs st0 vs [].
 Proof.
   intros [Hok [Hc [Ho Hd]]]. split; [reflexivity|]. split; [assumption|]. split; [constructor|].
   intros i v0 v H0 Hv. assert (v = v0) by congruence. subst v. clear Hv.
@@ -1115,7 +1144,50 @@ Proof.
   intros a wgp wvec vs0 ms Hwf Har Hs. apply (fwf_inputb_sound a) in Hwf; [| exact Har].
   pose proof (fwf_finv a wgp wvec vs0 (fun _ => 0) Hwf) as Hinv. destruct Hwf as [Hok [_ [Ho _]]].
   pose proof (proj1 (fsolve_ok a wgp wvec vs0 (fun _ => 0) Hok Ho ms Hinv Hs)) as Hfr.
-  apply forallb_forall. intros i Hi. rewrite Forall_forall in Hfr. exact (proj2 (Hfr i Hi)).
+  apply forallb_forall. intros i Hi. rewrite Forall_forall in Hfr. exact (proj1 (proj2 (Hfr i Hi))).
+Qed.
+
+(* byte level, stores: every instruction that writes memory is a store FROM A REGISTER to the destination slot of one variable and replaces
+   exactly the bytes of that variable's destination type (n = w = wz = 8 * size; the one exception is 32-bit x86, where a byte held in
+   ESI / EDI / EBP / ESP is stored 32 bits wide); an exchange never has a memory operand *)
+Definition store_exact (a : farch) (vs0 : list fvar) (i : minst) : Prop :=
+  match i with
+  | IExt (Mem ar off) s e n w wz =>
+      exists v0, In v0 vs0 /\ f_out v0 = Mem ar off /\ e = EZ /\ w = n /\ wz = n /\ is_regl s = true /\
+                 (n = 8 * f_osz v0 \/ (a = FX86 /\ f_osz v0 = 1 /\ n = 32))
+  | IExt (Reg _ _) _ _ _ _ _ => True
+  | IXchg x y _ _ => is_regl x = true /\ is_regl y = true
+  end.
+
+Theorem fsolve_stores_exact : forall a wgp wvec vs0 ms, fwf_inputb wgp wvec vs0 = true -> farch_okb a vs0 = true -> fsolve a wgp wvec vs0 = SOk ms ->
+  forall i, In i ms -> store_exact a vs0 i.
+Proof.
+  intros a wgp wvec vs0 ms Hwf Har Hs i Hi. apply (fwf_inputb_sound a) in Hwf; [| exact Har].
+  pose proof (fwf_finv a wgp wvec vs0 (fun _ => 0) Hwf) as Hinv. destruct Hwf as [Hok [_ [Ho _]]].
+  pose proof (proj1 (fsolve_ok a wgp wvec vs0 (fun _ => 0) Hok Ho ms Hinv Hs)) as Hfr.
+  rewrite Forall_forall in Hfr. exact (proj2 (proj2 (Hfr i Hi))).
+Qed.
+
+(* consequence: when the destination slots [off, off + size) of the assignment are pairwise disjoint byte ranges, two stores of the emitted
+   sequence to different slots never overlap (targets other than 32-bit x86; there: unless the wide byte store is involved) *)
+Definition slot_of (v : fvar) : option (Z * Z) := match f_out v with Mem _ off => Some (off, f_osz v) | Reg _ _ => None end.
+Definition slots_disjoint (vs : list fvar) : Prop :=
+  forall u v o1 z1 o2 z2, In u vs -> In v vs -> slot_of u = Some (o1, z1) -> slot_of v = Some (o2, z2) -> o1 <> o2 ->
+    o1 + z1 <= o2 \/ o2 + z2 <= o1.
+
+Corollary fsolve_stores_disjoint : forall a wgp wvec vs0 ms, fwf_inputb wgp wvec vs0 = true -> farch_okb a vs0 = true -> a <> FX86 ->
+  fsolve a wgp wvec vs0 = SOk ms -> slots_disjoint vs0 ->
+  forall a1 o1 s1 e1 n1 w1 z1 a2 o2 s2 e2 n2 w2 z2,
+    In (IExt (Mem a1 o1) s1 e1 n1 w1 z1) ms -> In (IExt (Mem a2 o2) s2 e2 n2 w2 z2) ms -> o1 <> o2 ->
+    8 * o1 + z1 <= 8 * o2 \/ 8 * o2 + z2 <= 8 * o1.
+Proof.
+  intros a wgp wvec vs0 ms Hwf Har Hx Hs Hd a1 o1 s1 e1 n1 w1 z1 a2 o2 s2 e2 n2 w2 z2 H1 H2 Hne.
+  pose proof (fsolve_stores_exact a wgp wvec vs0 ms Hwf Har Hs _ H1) as [u [Hu [Eu [_ [_ [Z1 [_ S1]]]]]]].
+  pose proof (fsolve_stores_exact a wgp wvec vs0 ms Hwf Har Hs _ H2) as [v [Hv [Ev [_ [_ [Z2 [_ S2]]]]]]].
+  destruct S1 as [S1 | [S1 _]]; [| contradiction]. destruct S2 as [S2 | [S2 _]]; [| contradiction].
+  assert (Su : slot_of u = Some (o1, f_osz u)) by (unfold slot_of; rewrite Eu; reflexivity).
+  assert (Sv : slot_of v = Some (o2, f_osz v)) by (unfold slot_of; rewrite Ev; reflexivity).
+  destruct (Hd u v _ _ _ _ Hu Hv Su Sv Hne); lia.
 Qed.
 
 Theorem fsolve_frame : forall a wgp wvec vs0 ms, fwf_inputb wgp wvec vs0 = true -> farch_okb a vs0 = true -> fsolve a wgp wvec vs0 = SOk ms ->
